@@ -36,7 +36,9 @@ SHARD = 40
 RULE = ("frames of 1-10 rows over all nine stypes (dict-valued text_tokenized, both tokenizer output formats) "
         "materialized by Dataset; saveload cases take the frame whole / as slice view / view of a view / index "
         "selection / row- and column-concatenation / zero rows / re-wrapped with an explicit num_rows, with and "
-        "without target, with and without statistics, plus frames WITHOUT features that carry only an explicit "
+        "without target, with and without statistics, loaded with device omitted / 'cpu' / torch.device('cpu') "
+        "(statistics compared by value AND container/scalar type), reuse cases saving 2-3 frames of different size "
+        "onto ONE path, plus frames WITHOUT features that carry only an explicit "
         "num_rows (and y) and their selections / concatenations; history cases run 2-7 events (materialize with/without path, new Dataset + materialize, a "
         "new Dataset over ANOTHER table restoring itself from the cache, a derived dataset (slice / shuffle / "
         "index_select) calling materialize(path), the path handed to another table after it was loaded (file "
@@ -183,7 +185,7 @@ def gen_newdf(rng, n):
 
 def gen_rewrite(rng, n):
     """the cache path is handed to ANOTHER table: old file removed (or overwritten in place by a complete file)"""
-    return {"e": "rewrite", "how": rng.pick(["remove", "remove", "overwrite"]),
+    return {"e": "rewrite", "how": rng.pick(["remove", "remove", "overwrite", "save", "save"]),
             "rows": [rng.randint(0, n - 1) for _ in range(rng.randint(2, 5))], "shift": rng.chance(0.7)}
 
 
@@ -245,6 +247,37 @@ def gen_events(rng, n):
     return ev
 
 
+def gen_device(rng):
+    """the `device` argument of torch_frame.load: omitted, a string, a torch.device (CPU only here)"""
+    return rng.pick([None, None, "cpu", "torch.device"])
+
+
+def dev_of(d):
+    return None if d is None else ("cpu" if d == "cpu" else torch.device("cpu"))
+
+
+def gen_reuse(rng):
+    """Several saves onto ONE path (larger then smaller, smaller then larger, with/without statistics),
+    each followed by a load that must return exactly the frame just saved."""
+    big = gen_desc(rng, big=True)
+    small = G.gen_frame(rng, n=rng.randint(1, 2), stypes=[rng.pick(["numerical", "categorical", "embedding",
+                                                                     "multicategorical", "text_tokenized"])])
+    small["cols"] = small["cols"][:1] + [c for c in small["cols"][1:] if c["name"] == small["target"]]
+    small["col_order"] = [n for n in small["col_order"] if n in [c["name"] for c in small["cols"]]]
+
+    def step(desc, shrink_rows):
+        n = desc["n"]
+        v = {"v": "whole"}
+        if shrink_rows:      # index selection copies (a slice view would still carry the whole storage)
+            v = rng.pick([{"v": "index", "idx": [rng.randint(0, n - 1)]}, {"v": "empty", "how": "index"}])
+        return {"frame": desc, "variant": v, "with_stats": rng.chance(0.6), "device": gen_device(rng)}
+    order = rng.pick([[big, small], [small, big], [big, small, big], [big, big], [small, big, small]])
+    steps = []
+    for j, d in enumerate(order):
+        steps.append(step(d, shrink_rows=(j > 0 and order[j - 1] is d) or rng.chance(0.15)))
+    return {"kind": "reuse", "frame": big, "steps": steps}
+
+
 def generate(rng, tier):
     n_sl, n_h, n_t = (400, 200, 8) if tier == "quick" else (6000, 3000, 60)
     cases = []
@@ -256,13 +289,19 @@ def generate(rng, tier):
         if i % 7 == 0:
             desc = gen_desc(rng, big=True)
         case = {"kind": "saveload", "frame": desc, "variant": gen_variant(rng, desc["n"]),
-                "with_stats": not rng.chance(0.12)}
+                "with_stats": not rng.chance(0.12), "device": gen_device(rng)}
         if i % 8 == 5:     # the same frame, re-wrapped with an explicitly given num_rows
             case["explicit_rows"] = True
         cases.append(case)
+    for _ in range(n_sl // 8):
+        cases.append(gen_reuse(rng))
     for _ in range(n_h):
         desc = gen_desc(rng)
-        cases.append({"kind": "history", "frame": desc, "events": gen_events(rng, desc["n"])})
+        evs = gen_events(rng, desc["n"])
+        for e in evs:                 # materialize(device=..., path=...) hands the device to torch_frame.load
+            if e["e"] in ("mat", "new") and rng.chance(0.3):
+                e["device"] = rng.pick(["cpu", "torch.device"])
+        cases.append({"kind": "history", "frame": desc, "events": evs})
     for _ in range(n_t):
         desc = gen_desc(rng, big=rng.chance(0.5))
         cases.append({"kind": "trunc", "frame": desc, "ks": "strat" if tier == "quick" else "all",
@@ -394,6 +433,62 @@ def plain_frame(raw):
     return {"n": n, "feats": feats, "names": raw["names"], "y": raw["y"]}
 
 
+def typed(v):
+    """A value with its container / scalar TYPES spelled out (tuple vs list, python float vs numpy scalar vs
+    tensor, enum keys): what `==` on read_stats cannot see."""
+    import enum
+    import numpy as np
+    if isinstance(v, torch.Tensor):
+        return ["tensor", str(v.dtype), str(v.device), list(v.shape), enc_tensor(v)[2]]
+    if isinstance(v, dict):
+        return ["dict", sorted(([typed(k), typed(x)] for k, x in v.items()), key=lambda p: json.dumps(p[0]))]
+    if isinstance(v, tuple):
+        return ["tuple", [typed(x) for x in v]]
+    if isinstance(v, list):
+        return ["list", [typed(x) for x in v]]
+    if isinstance(v, enum.Enum):
+        return ["enum", type(v).__name__, v.name]
+    if isinstance(v, np.ndarray):
+        return ["ndarray", str(v.dtype), [typed(x) for x in v.tolist()]]
+    if isinstance(v, np.generic):
+        x = v.item()
+        return ["numpy", type(v).__name__, G.fnum(x) if isinstance(x, float) else (x if isinstance(x, (int, str, bool)) else repr(x))]
+    if isinstance(v, float):
+        return ["float", G.fnum(v)]
+    if v is None or isinstance(v, (bool, int, str)):
+        return [type(v).__name__, v]
+    return ["other", type(v).__module__ + "." + type(v).__name__, repr(v)]
+
+
+def type_diff(a, b, where="col_stats"):
+    """first place where two typed() values differ"""
+    if a == b:
+        return None
+    if a[0] != b[0] or a[0] not in ("dict", "tuple", "list") or len(a[1]) != len(b[1]):
+        return f"{where}: saved {json.dumps(a)[:120]} loaded {json.dumps(b)[:120]}"
+    for x, y in zip(a[1], b[1]):
+        if x != y:
+            if a[0] == "dict":
+                if x[0] != y[0]:
+                    return f"{where}: key {json.dumps(x[0])} became {json.dumps(y[0])}"
+                return type_diff(x[1], y[1], f"{where}[{x[0][-1]}]")
+            return type_diff(x, y, where + "[.]")
+    return where
+
+
+def devices_of(tf):
+    out = set()
+    for feat in tf.feat_dict.values():
+        for m in (feat.values() if isinstance(feat, dict) else [feat]):
+            if isinstance(m, torch.Tensor):
+                out.add(str(m.device))
+            else:
+                out.update((str(m.values.device), str(m.offset.device)))
+    if tf.y is not None:
+        out.add(str(tf.y.device))
+    return sorted(out)
+
+
 def stats_json(col_stats):
     return None if col_stats is None else G.read_stats(col_stats)
 
@@ -471,35 +566,63 @@ def apply_variant(case, ds):
     raise ValueError(v)
 
 
+def prepare(case):
+    if case["variant"]["v"] == "featureless":
+        return featureless(case["variant"]), ({} if case["with_stats"] else None)
+    ds = materialized(case["frame"])
+    return apply_variant(case, ds), (ds.col_stats if case["with_stats"] else None)
+
+
+def save_load_once(case, tf, stats, p):
+    """torch_frame.save(tf, stats, p) -> torch_frame.load(p[, device]); everything a user can read, before/after"""
+    obs = {"raw": raw_frame(tf), "pre": obs_frame(tf), "pre_tf": G.read_tf(tf), "pre_stats": stats_json(stats),
+           "pre_typed": typed(stats), "pre_devices": devices_of(tf),
+           "file_before": os.path.getsize(p) if os.path.isfile(p) else None}
+    try:
+        torch_frame.save(tf, stats, p)
+    except Exception as ex:
+        obs.update(ok=False, stage="save", exc=C.exc_name(ex), msg=str(ex)[:300])
+        return obs
+    obs["file_len"] = os.path.getsize(p)
+    obs["src_after_save"] = obs_frame(tf) == obs["pre"]
+    dev = case.get("device")
+    try:
+        tf2, stats2 = torch_frame.load(p) if dev is None else torch_frame.load(p, device=dev_of(dev))
+    except Exception as ex:
+        obs.update(ok=False, stage="load", exc=C.exc_name(ex), msg=str(ex)[:300])
+        return obs
+    obs.update(ok=True, post=obs_frame(tf2), post_raw=raw_frame(tf2), post_tf=G.read_tf(tf2),
+               post_stats=stats_json(stats2), post_typed=typed(stats2), post_devices=devices_of(tf2),
+               eq_lr=bool(tf == tf2), eq_rl=bool(tf2 == tf), stats_none=stats2 is None)
+    return obs
+
+
 def run_saveload(case):
     try:
-        if case["variant"]["v"] == "featureless":
-            tf = featureless(case["variant"])
-            stats = {} if case["with_stats"] else None
-        else:
-            ds = materialized(case["frame"])
-            tf = apply_variant(case, ds)
-            stats = ds.col_stats if case["with_stats"] else None
+        tf, stats = prepare(case)
     except Exception as ex:   # not C11's business (C01 / C07 / C08 own these steps)
         return {"skip": f"preparation raised {C.exc_name(ex)}: {str(ex)[:200]}"}
-    obs = {"raw": raw_frame(tf), "pre": obs_frame(tf), "pre_tf": G.read_tf(tf), "pre_stats": stats_json(stats)}
     p = fresh_path("sl")
     try:
-        try:
-            torch_frame.save(tf, stats, p)
-        except Exception as ex:
-            obs.update(ok=False, stage="save", exc=C.exc_name(ex), msg=str(ex)[:300])
-            return obs
-        obs["file_len"] = os.path.getsize(p)
-        obs["src_after_save"] = obs_frame(tf) == obs["pre"]
-        try:
-            tf2, stats2 = torch_frame.load(p)
-        except Exception as ex:
-            obs.update(ok=False, stage="load", exc=C.exc_name(ex), msg=str(ex)[:300])
-            return obs
-        obs.update(ok=True, post=obs_frame(tf2), post_raw=raw_frame(tf2), post_tf=G.read_tf(tf2),
-                   post_stats=stats_json(stats2), eq_lr=bool(tf == tf2), eq_rl=bool(tf2 == tf),
-                   stats_none=stats2 is None)
+        return save_load_once(case, tf, stats, p)
+    finally:
+        rm(p)
+
+
+def run_reuse(case):
+    """all steps save onto the SAME path (never removed in between)"""
+    try:
+        prepared = [prepare(st) for st in case["steps"]]
+    except Exception as ex:
+        return {"skip": f"preparation raised {C.exc_name(ex)}: {str(ex)[:200]}"}
+    p = fresh_path("ru")
+    obs = {"steps": []}
+    try:
+        for st, (tf, stats) in zip(case["steps"], prepared):
+            o = save_load_once(st, tf, stats, p)
+            obs["steps"].append(o)
+            if not o["ok"]:
+                break
         return obs
     finally:
         rm(p)
@@ -569,7 +692,8 @@ class Ref:
         self.fresh = materialized(desc, df=df)
         self.obs, self.stats = obs_frame(self.fresh.tensor_frame), stats_json(self.fresh.col_stats)
         self.id = len(refs)
-        refs.append({"raw": raw_frame(self.fresh.tensor_frame), "obs": self.obs, "stats": self.stats})
+        refs.append({"raw": raw_frame(self.fresh.tensor_frame), "obs": self.obs, "stats": self.stats,
+                     "typed": typed(self.fresh.col_stats)})
 
     def new(self):
         return G.build_dataset(self.desc, df=self.df)[0]
@@ -588,7 +712,8 @@ def run_history(case):
     def observe(st, ds, call):
         try:
             call()
-            st.update(ok=True, tf=obs_frame(ds.tensor_frame), stats=stats_json(ds.col_stats))
+            st.update(ok=True, tf=obs_frame(ds.tensor_frame), stats=stats_json(ds.col_stats),
+                      typed=typed(ds.col_stats), devices=devices_of(ds.tensor_frame))
         except Exception as ex:
             st.update(ok=False, exc=C.exc_name(ex), msg=str(ex)[:200], still_unmaterialized=not ds.is_materialized)
 
@@ -599,7 +724,8 @@ def run_history(case):
             if ev["e"] in ("mat", "new"):
                 if ev["e"] == "new":
                     cur = ref.new()
-                observe(st, cur, lambda: cur.materialize(path=path if ev["path"] else None))
+                kw = {} if ev.get("device") is None else {"device": dev_of(ev["device"])}
+                observe(st, cur, lambda: cur.materialize(path=path if ev["path"] else None, **kw))
             elif ev["e"] == "newdf":
                 # only meaningful when there is a cache to restore from (without one the other table
                 # would legitimately become the cache's content)
@@ -626,6 +752,11 @@ def run_history(case):
                         rm(path)
                         cur = ref.new()
                         observe(st, cur, lambda: cur.materialize(path=path))
+                    elif ev["how"] == "save":
+                        # torch_frame.save of the other table's frame straight onto the existing cache file
+                        w = ref.fresh
+                        observe(st, w, lambda: torch_frame.save(w.tensor_frame, w.col_stats, path))
+                        cur = ref.new()
                     else:
                         w = ref.new()
                         observe(st, w, lambda: w.materialize(path=path2))
@@ -787,6 +918,8 @@ def run(case):
     torch.manual_seed(0)
     if case["kind"] == "saveload":
         return run_saveload(case)
+    if case["kind"] == "reuse":
+        return run_reuse(case)
     if case["kind"] == "history":
         return run_history(case)
     return run_trunc(case)
@@ -829,6 +962,30 @@ def oracle_saveload(case, obs):
     if obs["pre_stats"] != obs["post_stats"]:
         return dict(key="stats-differ", what="loaded col_stats differ from the saved ones",
                     expected=obs["pre_stats"], observed=obs["post_stats"])
+    dev = case.get("device")
+    if obs["pre_typed"] != obs["post_typed"]:
+        return dict(key="stats-types-differ",
+                    what=f"torch_frame.load(path{'' if dev is None else ', device=' + dev}) returned col_stats equal in "
+                         f"value but not in type: {type_diff(obs['pre_typed'], obs['post_typed'])}",
+                    expected=obs["pre_typed"], observed=obs["post_typed"])
+    if obs["post_devices"] != obs["pre_devices"]:
+        return dict(key="device-differs", what=f"loaded tensors live on {obs['post_devices']}, saved ones on "
+                    f"{obs['pre_devices']}", expected=obs["pre_devices"], observed=obs["post_devices"])
+    return None
+
+
+def oracle_reuse(case, obs):
+    sizes = []
+    for j, (st, o) in enumerate(zip(case["steps"], obs["steps"])):
+        f = oracle_saveload(st, o)
+        if f is not None:
+            f["key"] = "reuse:" + f["key"]
+            f["what"] = (f"save #{j + 1} onto one and the same path (file had {o['file_before']} bytes before, earlier "
+                         f"files {sizes}): " + f["what"])
+            return f
+        sizes.append(o.get("file_len"))
+    if len(obs["steps"]) != len(case["steps"]):
+        return dict(key="reuse:short-run", what="run stopped early")
     return None
 
 
@@ -918,6 +1075,13 @@ def oracle_history_events(case, obs):
                                  (" -- it is the content of an EARLIER file at this path" if stale else ""),
                             expected={"tf": fresh["obs"], "stats": fresh["stats"]},
                             observed={"tf": st["tf"], "stats": st["stats"]})
+            if st["typed"] != fresh["typed"]:
+                return dict(key="hist:cached-differs:stats-types",
+                            what=f"event {i} {ev} (cache file {before}): col_stats equal the fresh ones in value but not "
+                                 f"in type: {type_diff(fresh['typed'], st['typed'])}",
+                            expected=fresh["typed"], observed=st["typed"], event=ev)
+            if st["devices"] not in ([], ["cpu"]):
+                return dict(key="hist:device", what=f"event {i}: tensors on {st['devices']}", event=ev)
             mat = True
             if ev["e"] == "newdf":
                 if not st["file_unchanged"]:
@@ -984,6 +1148,8 @@ def oracle(case, obs):
         return None
     if case["kind"] == "saveload":
         return oracle_saveload(case, obs)
+    if case["kind"] == "reuse":
+        return oracle_reuse(case, obs)
     if case["kind"] == "history":
         return oracle_history(case, obs)
     return oracle_trunc(case, obs)
@@ -1007,18 +1173,38 @@ def shrink(case):
         ev = case["events"]
         for k in range(len(ev)):
             yield dict(case, events=ev[:k] + ev[k + 1:])
+    if case["kind"] == "reuse":
+        st = case["steps"]
+        for k in range(len(st)):
+            if len(st) > 1:
+                yield dict(case, steps=st[:k] + st[k + 1:])
+        for k in range(len(st)):
+            if st[k].get("device") is not None:
+                yield dict(case, steps=st[:k] + [dict(st[k], device=None)] + st[k + 1:])
+            for d in shrink_frame(st[k]["frame"]):
+                if st[k]["variant"]["v"] in ("whole", "empty"):
+                    yield dict(case, steps=st[:k] + [dict(st[k], frame=d)] + st[k + 1:])
+        return
     if case["kind"] == "saveload":
         if case["variant"]["v"] != "whole":
             yield dict(case, variant={"v": "whole"})
         if not case["with_stats"]:
             yield dict(case, with_stats=True)
+        if case.get("device") is not None:
+            yield dict(case, device=None)
+    if case["kind"] == "history":
+        ev = case["events"]
+        for k in range(len(ev)):
+            if ev[k].get("device") is not None:
+                yield dict(case, events=ev[:k] + [{x: y for x, y in ev[k].items() if x != "device"}] + ev[k + 1:])
     for d in shrink_frame(case["frame"]):
         yield dict(case, frame=d)
 
 
 # ------------------------------------------------------------------ evidence helpers
 def stypes_of(case):
-    return sorted(c["stype"] for c in case["frame"]["cols"] if c["name"] != case["frame"]["target"])
+    frames = [st["frame"] for st in case["steps"]] if case["kind"] == "reuse" else [case["frame"]]
+    return sorted(c["stype"] for f in frames for c in f["cols"] if c["name"] != f["target"])
 
 
 def nontrivial_sig(case, obs):
@@ -1029,11 +1215,17 @@ def nontrivial_sig(case, obs):
         if "file_len" not in obs or not (obs["raw"]["feats"] or obs["pre"]["n"] > 0):
             return None
         sig += [case["variant"]["v"], case["variant"].get("op", {}).get("v"), bool(case.get("explicit_rows")),
-                obs["pre"]["n"], obs["pre"]["y"] is not None, case["with_stats"], obs["file_len"]]
+                obs["pre"]["n"], obs["pre"]["y"] is not None, case["with_stats"], obs["file_len"], case.get("device")]
+    elif case["kind"] == "reuse":
+        if len(obs["steps"]) < 2:
+            return None
+        sig += [[(st["variant"]["v"], st["with_stats"], st.get("device"), o.get("file_len"))
+                 for st, o in zip(case["steps"], obs["steps"])]]
     elif case["kind"] == "history":
         if not any(s["before"] != "absent" or s["after"] != "absent" for s in obs["steps"]):
             return None
-        sig += [[(e["e"], e.get("path"), s.get("ok", s.get("raised")), "skipped" in s, s["before"], s["after"])
+        sig += [[(e["e"], e.get("path"), e.get("device"), e.get("how"), s.get("ok", s.get("raised")), "skipped" in s,
+                  s["before"], s["after"])
                  for e, s in zip(case["events"], obs["steps"])]]
     else:
         if not obs.get("ok") or obs["tried"] == 0:
@@ -1057,7 +1249,19 @@ def stats(cases, obss):
             d["stypes"][s] = d["stypes"].get(s, 0) + 1
         if c["frame"]["target"] is None:
             d["without_target"] += 1
+        if c["kind"] == "reuse":
+            lens = [x.get("file_len") for x in o["steps"]]
+            d["reuse_saves"] = d.get("reuse_saves", 0) + len(lens)
+            for a_, b_ in zip(lens, lens[1:]):
+                if a_ and b_:
+                    k_ = "reuse_smaller_after_larger" if b_ < a_ else "reuse_larger_after_smaller" if b_ > a_ else "reuse_same_size"
+                    d[k_] = d.get(k_, 0) + 1
+            for st_ in c["steps"]:
+                k_ = "load_device:" + str(st_.get("device"))
+                d[k_] = d.get(k_, 0) + 1
         if c["kind"] == "saveload":
+            k_ = "load_device:" + str(c.get("device"))
+            d[k_] = d.get(k_, 0) + 1
             v = c["variant"]["v"]
             d["variants"][v] = d["variants"].get(v, 0) + 1
             n = o.get("pre", {}).get("n")
@@ -1068,6 +1272,8 @@ def stats(cases, obss):
         elif c["kind"] == "history":
             for e, s in zip(c["events"], o.get("steps", [])):
                 d["events"][e["e"]] = d["events"].get(e["e"], 0) + 1
+                if e.get("device") is not None:
+                    d["materialize_with_device"] = d.get("materialize_with_device", 0) + 1
                 d["file_states_seen"][s["before"]] = d["file_states_seen"].get(s["before"], 0) + 1
                 if "skipped" in s:
                     d["events_skipped"] = d.get("events_skipped", 0) + 1
@@ -1113,6 +1319,11 @@ def sanity(cases, obss):
             trunc += 1
             for k in special:
                 special[k] += 1 if o["special"][k] else 0
+    d = stats(cases, obss)
+    for k in ("reuse_smaller_after_larger", "reuse_larger_after_smaller", "load_device:None", "load_device:cpu",
+              "load_device:torch.device", "materialize_with_device"):
+        if d.get(k, 0) == 0:
+            probs.append(f"{k} never drawn")
     for k in ("mat", "new", "newdf", "derived", "rewrite", "cut", "crash", "conv"):
         if ev_run.get(k, 0) == 0:
             probs.append(f"history event kind {k!r} never executed")
@@ -1216,6 +1427,11 @@ def coq_term(case, obs):
         else:
             iobs = "IRaise"
         return f"check_save_load {coq_frame(obs['raw'])} {C.cz(cs)} {iobs}"
+    if case["kind"] == "reuse":
+        terms = [coq_term(dict(st, kind="saveload"), o) for st, o in zip(case["steps"], obs["steps"])]
+        if not terms or any(t is None for t in terms):
+            return None
+        return "(" + " && ".join(terms) + ")"
     if case["kind"] == "history":
         if not all(ascii_ok(r["raw"]) for r in obs["refs"]) or len(obs["steps"]) != len(case["events"]):
             return None
